@@ -76,3 +76,103 @@ Proof.
   - intros k v [].
   - exists l. rewrite E. split; [reflexivity|exact F].
 Qed.
+
+(* ---- the exact result of every mode over given per-frame lists (no repeated frames) ----------------------------------------- *)
+Theorem orfs_frames_gen_spec starts_of stops_of fs_of last_of ns need_stop minlen L :
+  (forall f, zsorted (starts_of f)) -> (forall f, zsorted (stops_of f)) ->
+  (forall f, Forall (start_in L) (starts_of f)) -> (forall f, Forall (stop_in L) (stops_of f)) ->
+  (forall f, 0 <= fs_of f) -> (forall f, last_of f <= L) ->
+  (ns = NSAlways -> forall f, Forall (fun a => a < last_of f) (starts_of f)) ->
+  forall frames st, nodupz frames = true -> (forall k v, In (k, v) st -> ~ In k frames) ->
+  orfs_frames_gen starts_of stops_of fs_of last_of ns need_stop minlen L st frames =
+  ROk (concat (map (fun f => orfs_of minlen f L (spec_mode ns need_stop (fs_of f) (last_of f) L (starts_of f) (stops_of f))) frames)).
+Proof.
+  intros S1 S2 B1 B2 Hfs Hlast Hbl.
+  induction frames as [|f r IH]; intros st N D; [reflexivity|]. cbn [orfs_frames_gen map concat].
+  apply nodupz_cons in N. destruct N as [N1 N2].
+  rewrite lookup_st_none by (intros k v Hin E; subst k; apply (D f v Hin); left; reflexivity).
+  cbn [fst snd]. rewrite frame_loop_st_fst.
+  rewrite IH; [|exact N2|].
+  2:{ intros k v [Hin|Hin]; [inversion Hin; subst; exact N1|]. intros Hk. apply (D k v Hin). right. exact Hk. }
+  assert (E : frame_loop (length (starts_of f) + length (stops_of f) + 1) ns need_stop minlen L f (fs_of f) (last_of f)
+                (starts_of f) (stops_of f) None =
+              ROk (orfs_of minlen f L (spec_mode ns need_stop (fs_of f) (last_of f) L (starts_of f) (stops_of f)))).
+  { unfold spec_mode. destruct ns.
+    - apply always_loop_spec_ns; auto.
+      + eapply Forall_impl; [|apply B2]. intros e He. unfold stop_in in He. lia.
+      + lia.
+    - pose proof (B1 f) as Hb. destruct (starts_of f) as [|a ss] eqn:Est.
+      + replace (length (@nil Z) + length (stops_of f) + 1)%nat with (S (length (stops_of f))) by (cbn; lia).
+        cbn [frame_loop loop_cond is_nil negb is_some orb]. reflexivity.
+      + replace (length (a :: ss) + length (stops_of f) + 1)%nat with (S (length (a :: ss) + length (stops_of f))) by lia.
+        inversion Hb as [|? ? Ha Hbss]; subst. unfold start_in in Ha.
+        apply (chain_first_spec _ NSOnce need_stop minlen _ f _ _ (a :: ss) _ a ss); auto.
+        * left. reflexivity.
+        * lia.
+        * cbn [length]. lia.
+    - replace (length (starts_of f) + length (stops_of f) + 1)%nat with (S (length (starts_of f) + length (stops_of f))) by lia.
+      apply (chain_first_spec _ NSNever need_stop minlen _ f _ _ (starts_of f) _ (fs_of f) (starts_of f)); auto.
+      + right. reflexivity.
+      + lia. }
+  rewrite E. reflexivity.
+Qed.
+
+(* the match lists of any regex tree are strictly increasing *)
+Lemma chain_sorted_before : forall l lo, C13_Model.chain lo l -> StronglySorted before l /\ Forall (fun m => (lo <= fst m)%nat /\ (fst m < snd m)%nat) l.
+Proof.
+  induction l as [|[b e] l IH]; intros lo H; [split; constructor|]. cbn [C13_Model.chain] in H. destruct H as (H1 & H2 & H3).
+  destruct (IH e H3) as [S F]. split.
+  - constructor; [exact S|]. eapply Forall_impl; [|exact F]. intros m [Hm _]. unfold before. cbn [snd]. exact Hm.
+  - constructor; [cbn; lia|]. eapply Forall_impl; [|exact F]. intros m [Hm Hm2]. split; [lia|exact Hm2].
+Qed.
+
+Lemma hits_rx_sorted gap r s f :
+  StronglySorted before (hits_rx gap r s f) /\ Forall (fun m => (fst m < snd m)%nat) (hits_rx gap r s f).
+Proof.
+  unfold hits_rx.
+  pose proof (C13_RxLemmas.finditer_m_chain (C13_Rx.m_rx (C13_Rx.eff_rx gap r)) (strand_str s f) 0 0) as H.
+  apply chain_sorted_before in H. destruct H as [S F]. split.
+  - apply sorted_filter. exact S.
+  - apply Forall_filter. eapply Forall_impl; [|exact F]. intros m [_ Hm]. exact Hm.
+Qed.
+
+(* regular expressions as start/stop, no repeated frame: every mode is its specification over the match lists; for
+   need_start='always' provided every start match begins before the end of the last residue (true whenever the regex
+   begins with a residue letter) *)
+Theorem rx_modes_spec gap rs rp r ns need_stop minlen s :
+  nodupz (frames_of r) = true ->
+  (ns = NSAlways -> forall f, Forall (fun a => a < Z.of_nat (last_res_g (gap_set gap) (strand_data s f))) (starts_rx gap rs s f)) ->
+  find_orfs_rx gap rs rp (RAspec r) ns need_stop minlen s =
+  XOk (concat (map (fun f => orfs_of minlen f (Z.of_nat (length s))
+                     (spec_mode ns need_stop (Z.of_nat (frame_start_g (gap_set gap) (strand_data s f) f))
+                                (Z.of_nat (last_res_g (gap_set gap) (strand_data s f))) (Z.of_nat (length s))
+                                (starts_rx gap rs s f) (stops_rx gap rp s f))) (frames_of r))).
+Proof.
+  intros N Hbl. unfold find_orfs_rx.
+  rewrite (orfs_frames_gen_spec (starts_rx gap rs s) (stops_rx gap rp s)
+             (fun f => Z.of_nat (frame_start_g (gap_set gap) (strand_data s f) f))
+             (fun f => Z.of_nat (last_res_g (gap_set gap) (strand_data s f))) ns need_stop minlen (Z.of_nat (length s))); try reflexivity; auto.
+  - intros f. destruct (hits_rx_sorted gap rs s f). apply sorted_map_fst; assumption.
+  - intros f. destruct (hits_rx_sorted gap rp s f). apply sorted_map_snd; assumption.
+  - intros f. apply Forall_forall. intros a H. unfold starts_rx in H. apply in_map_iff in H.
+    destruct H as [[i e] [Ea H]]. cbn in Ea. subst a. apply hits_rx_bound in H. unfold start_in. lia.
+  - intros f. apply Forall_forall. intros a H. unfold stops_rx in H. apply in_map_iff in H.
+    destruct H as [[i e] [Ea H]]. cbn in Ea. subst a. apply hits_rx_bound in H. unfold stop_in. lia.
+  - intros f. lia.
+  - intros f. cbn beta.
+    assert (K : forall g d, (last_res_g g d <= length d)%nat).
+    { intros g. induction d as [|c d IHd]; [cbn; lia|]. cbn [last_res_g length]. destruct (last_res_g g d); [destruct (is_gap_g g c); lia|lia]. }
+    pose proof (K (gap_set gap) (strand_data s f)) as H.
+    assert (E : length (strand_data s f) = length s) by (unfold strand_data; destruct (f >=? 0); [reflexivity|apply rev_length]). lia.
+Qed.
+
+(* non-vacuity of the hypothesis of rx_modes_spec for need_start='always' *)
+Definition wit_rs : C13_Rx.rx := C13_Rx.XCat (C13_Rx.XChr "A"%byte) (C13_Rx.XCat (C13_Rx.XCls false (bs "TU"%bs)) (C13_Rx.XChr "G"%byte)).
+Lemma rx_modes_witness : forall f,
+  Forall (fun a => a < Z.of_nat (last_res_g (gap_set (Some (bs "-"%bs))) (strand_data (bs "CCA-TGAAATA-AC"%bs) f)))
+         (starts_rx (Some (bs "-"%bs)) wit_rs (bs "CCA-TGAAATA-AC"%bs) f).
+Proof.
+  intros f. unfold starts_rx, hits_rx. apply Forall_forall. intros a H. apply in_map_iff in H. destruct H as [[i e] [E H]].
+  cbn [fst] in E. subst a. apply filter_In in H. destruct H as [H _]. unfold strand_str, strand_data in *.
+  destruct (f >=? 0); vm_compute in H; repeat (destruct H as [H|H]; [inversion H; subst; vm_compute; reflexivity|]); destruct H.
+Qed.
